@@ -53,4 +53,12 @@ PROPS = {
         "text": "For each of the 40 vector types, Quat and DQuat a stateright model whose states hold the raw bytes of the real value and the model lanes; initial states are all constructor paths and named constants, actions write a value of the alphabet to a lane through field/IndexMut/AsMut/with_*/&mut index; the search runs to the fixpoint (all histories of every length over the alphabet) and every read path incl. Debug/Display is compared with the model in every state.",
         "note": TRUST + "; lane values are limited to the write alphabet plus constructor tags and constants (the accessors are data movement, values are opaque to them)",
     },
+    "C08": {
+        "quick": ["sse2"], "thorough": ["sse2", "coresimd"],
+        "level": "model_checking", "engine": "E2-stateright",
+        "technique": "explicit-state BFS over twin registers (non-interference by self-composition): same real operation applied to two values equal in visible lanes and different in the hidden lane, observations compared bit-for-bit in every state",
+        "design_ref": "DESIGN.md §3 C08",
+        "text": "A stateright model whose state is a twin pair of real Vec3A/Mat3A/Affine3A/BVec3A registers with identical visible lanes and different hidden lanes (10 contents x 2 injection routes, plus whatever glam itself leaves there); each of ~190 public operations is applied to both twins with twin operand menus; the always-property demands bit-identical observations and visible result lanes; results are explored up to depth 3 (quick) / 4 (thorough).",
+        "note": TRUST + "; the operation alphabet is hand-listed (names are in the evidence under extra.op_names); scalar-math has no hidden lane and is not checked",
+    },
 }
